@@ -20,6 +20,7 @@ EXPLANATION = (
     "neither re-raises nor leaves the loop); R8 sole owners of open_connection / reader / writer; R9 connection-state coherence: a forward dataflow over every method of the socket class with the abstract state (is_connected, writer present) shows that at every suspension point and at every exit `is_connected` holds exactly when a writer is stored (otherwise another task runs in a window where a send writes to no stream and is dropped, or a connect attempt passes the guard while the old stream is still held and is then orphaned). Liveness and real interleavings are not "
     "decided."
     " Added later: R1 also demands that the 'closed locally' exemption covers end-of-stream only and that the read loop is left normally only when the reader is gone; R10 (C01.R1 re-used) a message is out of the queue before the attempt to write it."
+    ' Rounds 7-8: R7 accepts two idioms for running subscriber callbacks (try/except Exception per awaited callback inside the loop, or asyncio.gather(..., return_exceptions=True)) and refutes callbacks wrapped in tasks that outlive a cancelled notifier; R3 also: retry delay == 2 s, no timer around the connection attempt; R11 the scheduling primitive (_schedule/_delay): one task per call running the coroutine given, delayed exactly for a non-zero delay (path conditions evaluated on the delays the package uses), tracked in _background_tasks and released by a done callback.'
 )
 ASSUMPTIONS = [
     "library calls in the frozen no-raise table of sa/effects.py do not raise (logging, loop.time/create_task, set/deque ops, StreamWriter.write/close/is_closing)",
